@@ -227,18 +227,28 @@ def shard_unpriv(seed, count):
         st_['mpuir'] = 12 << 8
         st_['sctlr'] = (st_['sctlr'] | 1) & ~(1 << 13)
         st_['vbar'] = 0
-        st_[gen.bank_key(f['n'], mode)] = gen.DATA[0] + 0x40
+        st_[gen.bank_key(f['n'], mode)] = gen.DATA[0] + 0x40 + rng.choice((0, 0, 1, 2, 3))
+        st_['sctlr'] = (st_['sctlr'] & ~2) | ((1 << 22) if rng.random() < 0.7 else 0)        # A=0; U=1 mostly: split (byte-wise) accesses too
+        background = rng.random() < 0.3
+        if background:
+            # no region covers the data device; SCTLR.BR=1: privileged accesses use the background map, unprivileged ones must fault
+            st_['drsrs[0]'] = (15 << 1) | 1            # 64 KiB at 0: code and vectors only
+            st_['drsrs[1]'] = 0
+            st_['sctlr'] |= 1 << 17
         if 'm' in f:
             st_[gen.bank_key(f['m'], mode)] = 0
         is_store = name.startswith('STR')
-        user_denied = ap in (1, 5) or (ap == 2 and is_store)
+        user_denied = background or ap in (1, 5) or (ap == 2 and is_store)
+        case['unpriv_check'] = {'user_denied': bool(user_denied), 't': f['t'], 'n': f['n']}
         cpu = e1.build(case)
         pre = target.snapshot(cpu)
         exc = target.step_budget(cpu)
         post = target.snapshot(cpu)
         aborted = (post['cpsr'] & 31) == 0b10111 and post['R.PC'] == 0x10
+        if (st_['sctlr'] >> 22) & 1 == 0 and case['cfg'].get('arch_version', 6) < 7 and (st_[gen.bank_key(f['n'], mode)] & 3):
+            pass        # legacy align-down: still a single access with User permissions
         memsame = all(pre[k] == post[k] for k in pre if k.startswith('mem'))
-        acc.case(user_denied, ('unpriv', w, ap, st_['cpsr']), cls='unpriv:' + name, sample={'row': name, 'word': '%#x' % w, 'AP': ap, 'mode': mode, 'aborted': aborted})
+        acc.case(user_denied, ('unpriv', w, ap, st_['cpsr']), cls='unpriv:' + name, sample={'row': name, 'word': '%#x' % w, 'AP': ap, 'mode': mode, 'aborted': aborted, 'background_variant': background})
         if exc is not None:
             acc.violation('C19:unpriv:host-error', case, {'exc': repr(exc)})
         elif user_denied and not (aborted and memsame and post[gen.bank_key(f['t'], mode)] == pre[gen.bank_key(f['t'], mode)]):
@@ -283,6 +293,22 @@ def _dispatch(fn, args):
 
 
 def replay(case, bucket=None):
+    if 'unpriv_check' in case:
+        uc = case['unpriv_check']
+        cpu = e1.build(case)
+        pre = target.snapshot(cpu)
+        exc = target.step_budget(cpu)
+        post = target.snapshot(cpu)
+        mode = gen.MODE_NAME[pre['cpsr'] & 31]
+        aborted = (post['cpsr'] & 31) == 0b10111 and post['R.PC'] == 0x10
+        memsame = all(pre[k] == post[k] for k in pre if k.startswith('mem'))
+        if exc is not None:
+            return ['host-error']
+        if uc['user_denied'] and not (aborted and memsame and post[gen.bank_key(uc['t'], mode)] == pre[gen.bank_key(uc['t'], mode)]):
+            return ['not-checked-with-user-permissions']
+        if not uc['user_denied'] and aborted:
+            return ['spurious-abort']
+        return []
     cpu = e1.build(case)
     pre = target.snapshot(cpu, False)
     for _ in range(case.get('steps', 1)):
